@@ -59,6 +59,41 @@ type mismatch struct {
 
 var scope = map[string]bool{"res": true, "recs": true, "lv": true, "idx": true, "shadow": true, "nf": true}
 
+// tsClass is the class of route differences in which two replicas hold the same records and notification batches
+// with other timestamps: the live leader applied an entry with one clock reading, the routes that apply the log
+// with the one the entry carries.  Whether a request is hit depends on where a millisecond boundary falls, so
+// the difference does not show at the same step (or at all) when the same requests are executed again: it is
+// confirmed by the CLASS showing again (see cmdReplay), and reported with the number of executions that showed it.
+const tsClass = "timestamps differ between the live route and the log routes"
+
+// diffRoutes is m.DiffDumps between the live leader and another route, with the class marked.
+func diffRoutes(a, b []m.DumpEntry, an, bn string) (string, int) {
+	w, enc := m.DiffDumps(a, b, an, bn)
+	if w != "" && m.DumpsDifferInTimestampsOnly(a, b) {
+		w = tsClass + ": " + w
+	}
+	return w, enc
+}
+
+// tagReads marks a deviation of a route's reads from the specification ("... X, the specification has Y") in
+// which X and Y are the same record up to the timestamps (the live leader's reads matched the specification).
+func tagReads(w string) string {
+	const sep = ", the specification has "
+	i := strings.LastIndex(w, sep)
+	if i < 0 {
+		return w
+	}
+	left, right := w[:i], w[i+len(sep):]
+	j := strings.LastIndex(left, "{")
+	if j < 0 || !strings.HasPrefix(right, "{") || left[j:] == right {
+		return w
+	}
+	if m.StripTimestamps(left[j:]) == m.StripTimestamps(right) {
+		return tsClass + ": " + w
+	}
+	return w
+}
+
 func argsOf(want *m.Step) m.Step { return m.Step{A: want.A, Ts: want.Ts, Req: want.Req} }
 
 // prepared is what every route choice of one sequence shares: the leader's dump and log, and the verdict of
@@ -130,10 +165,10 @@ func prepare(e *m.LeaderEngine, dem *demanded) (*prepared, error) {
 		return p, nil
 	}
 	if rw != "" {
-		p.what = "reads of the leader replaying the WAL: " + rw
+		p.what = tagReads("reads of the leader replaying the WAL: " + rw)
 		return p, nil
 	}
-	p.what, p.enc = m.DiffDumps(p.live, rd, "leader (live)", "leader replaying the WAL")
+	p.what, p.enc = diffRoutes(p.live, rd, "leader (live)", "leader replaying the WAL")
 	return p, nil
 }
 
@@ -156,7 +191,7 @@ func compareRoutes(e *m.LeaderEngine, pre *prepared, dem *demanded, cut, lag int
 	}
 	term := entries[n-1].Term
 	check := func(name string, d []m.DumpEntry) string {
-		w, enc := m.DiffDumps(live, d, "leader (live)", name)
+		w, enc := diffRoutes(live, d, "leader (live)", name)
 		encDiffs += enc
 		return w
 	}
@@ -166,7 +201,7 @@ func compareRoutes(e *m.LeaderEngine, pre *prepared, dem *demanded, cut, lag int
 			return ""
 		}
 		if w := m.CheckReads(db, tm, want); w != "" {
-			return "reads of the " + name + ": " + w
+			return tagReads("reads of the " + name + ": " + w)
 		}
 		return ""
 	}
@@ -406,6 +441,12 @@ func cmdReplay(args []string) int {
 	bad := 0
 	seen := map[string]bool{}
 	var harnessErr error
+	// the timestamp class (see tsClass): executions of this run, executions that showed it, sequences it was first seen in
+	execs := 0
+	var ts struct {
+		hits, seqs int
+		first      *mismatch
+	}
 	lines := make(chan []byte, 64)
 	var wg sync.WaitGroup
 	for w := 0; w < *workers; w++ {
@@ -414,7 +455,7 @@ func cmdReplay(args []string) int {
 			defer wg.Done()
 			for line := range lines {
 				mu.Lock()
-				stop := bad >= *maxBad || harnessErr != nil
+				stop := bad+ts.seqs >= *maxBad || harnessErr != nil
 				mu.Unlock()
 				if stop {
 					continue
@@ -427,19 +468,43 @@ func cmdReplay(args []string) int {
 					continue
 				}
 				o := replayOne(beh, nil)
+				runs, tsHits := 1, 0
+				var tsFirst *mismatch
 				if o.mm != nil && o.harness == nil {
-					// only a mismatch that reproduces is reported (what a snapshot contains depends on when
-					// Pebble flushed: up to three re-executions)
-					again := false
-					for try := 0; try < 3 && !again; try++ {
-						o2 := replayOne(o.mm.Behaviour, nil)
-						again = o2.harness == nil && o2.mm != nil && o2.mm.Step == o.mm.Step
+					// Only a mismatch that reproduces is reported (what a snapshot contains depends on when Pebble
+					// flushed).  Reproduced = one of up to five re-executions of the same sequence shows a mismatch
+					// of the same CLASS, at any step: a deviation that depends on timing (a clock tick, a
+					// scheduling order) does not hit the same step twice.
+					c := classOf(o.mm.What)
+					if c == tsClass {
+						tsHits++
 					}
-					if !again {
-						o.harness = fmt.Errorf("a mismatch at step %d did not reproduce on re-execution: %s", o.mm.Step, o.mm.What)
+					again := false
+					for try := 0; try < 5 && !again; try++ {
+						o2 := replayOne(o.mm.Behaviour, nil)
+						runs++
+						again = o2.harness == nil && o2.mm != nil && classOf(o2.mm.What) == c
+						if again && c == tsClass {
+							tsHits++
+						}
+					}
+					switch {
+					case c == tsClass:
+						// (decided for the whole run below: the class is confirmed by any second execution showing it)
+						tsFirst, o.mm = o.mm, nil
+					case !again:
+						o.harness = fmt.Errorf("a mismatch at step %d did not reproduce in 5 re-executions: %s", o.mm.Step, o.mm.What)
 					}
 				}
 				mu.Lock()
+				execs += runs
+				ts.hits += tsHits
+				if tsFirst != nil {
+					ts.seqs++
+					if ts.first == nil {
+						ts.first = tsFirst
+					}
+				}
 				res.Steps += o.steps
 				res.Routes += o.routes
 				res.EncDiffs += o.enc
@@ -494,6 +559,16 @@ func cmdReplay(args []string) int {
 	}
 	close(lines)
 	wg.Wait()
+	if harnessErr == nil && ts.first != nil {
+		if ts.hits >= 2 {
+			mm := *ts.first
+			mm.What = fmt.Sprintf("%s in %d of %d executions (%d sequences; first: step %d)%s", tsClass, ts.hits, execs, ts.seqs, mm.Step, strings.TrimPrefix(mm.What, tsClass))
+			bad += ts.seqs
+			res.Mismatches = append(res.Mismatches, mm)
+		} else {
+			harnessErr = fmt.Errorf("a mismatch at step %d did not reproduce (its class showed in 1 of %d executions): %s", ts.first.Step, execs, ts.first.What)
+		}
+	}
 	if harnessErr != nil {
 		fmt.Fprintln(os.Stderr, "harness failure:", harnessErr)
 		return 2
@@ -588,6 +663,8 @@ func cmdDrive(args []string) int {
 	enc := json.NewEncoder(w)
 	rng := rand.New(rand.NewSource(*seed))
 	var res result
+	execs, tsHits := 0, 0 // the timestamp class (see tsClass)
+	var tsFirst *mismatch
 	for t := 0; t < *n; t++ {
 		e, err := m.NewLeaderEngine()
 		if err != nil {
@@ -645,23 +722,47 @@ func cmdDrive(args []string) int {
 			}
 			res.Routes++
 			res.EncDiffs += encd
+			execs++
 			if what != "" {
-				// reproduce
+				// reproduce: up to five re-executions, a difference of the same class (see cmdReplay)
 				beh = append(beh, m.Step{A: "Routes", Off: cut, Ts: lag})
 				for i := range beh {
 					beh[i].Normalize()
 				}
-				o2 := replayArgs(beh)
-				if o2 == "" {
-					fmt.Fprintln(os.Stderr, "harness failure: a route difference did not reproduce on re-execution:", what)
-					return 2
+				c := classOf(what)
+				again := false
+				for try := 0; try < 5 && !again; try++ {
+					execs++
+					again = classOf(replayArgs(beh)) == c
 				}
-				if len(res.Mismatches) < 10 {
-					res.Mismatches = append(res.Mismatches, mismatch{Mode: "leader", Kind: "routes", Behaviour: beh, Step: len(beh) - 1, What: what, Cut: cut, Lag: lag, Chunk: kv.MaxSnapshotChunkSize})
+				mm := mismatch{Mode: "leader", Kind: "routes", Behaviour: beh, Step: len(beh) - 1, What: what, Cut: cut, Lag: lag, Chunk: kv.MaxSnapshotChunkSize}
+				switch {
+				case c == tsClass:
+					// (confirmed by any second execution of this run that shows the class)
+					tsHits++
+					if again {
+						tsHits++
+					}
+					if tsFirst == nil {
+						tsFirst = &mm
+					}
+				case !again:
+					fmt.Fprintln(os.Stderr, "harness failure: a route difference did not reproduce in 5 re-executions:", what)
+					return 2
+				case len(res.Mismatches) < 10:
+					res.Mismatches = append(res.Mismatches, mm)
 				}
 			}
 		}
 		e.Close()
+	}
+	if tsFirst != nil {
+		if tsHits < 2 {
+			fmt.Fprintf(os.Stderr, "harness failure: a route difference did not reproduce (its class showed in 1 of %d executions): %s\n", execs, tsFirst.What)
+			return 2
+		}
+		tsFirst.What = fmt.Sprintf("%s in %d of %d executions%s", tsClass, tsHits, execs, strings.TrimPrefix(tsFirst.What, tsClass))
+		res.Mismatches = append(res.Mismatches, *tsFirst)
 	}
 	b, _ := json.Marshal(res)
 	if err := os.WriteFile(*resOut, b, 0o644); err != nil {
@@ -919,19 +1020,20 @@ func cmdLive(args []string) int {
 			if outs[g].err != nil || outs[g].what == "" {
 				return
 			}
-			// a difference is reported when it shows again on re-execution (the interleaving is the scheduler's:
-			// three more rounds of the same requests)
-			again := 0
-			for try := 0; try < 3; try++ {
+			// a difference is reported when one shows again on re-execution (the interleaving is the scheduler's, a
+			// clock tick falls where it falls: three more rounds of the same requests, up to five when none shows)
+			again, tries := 0, 0
+			for tries < 3 || (again == 0 && tries < 5) {
+				tries++
 				if o2 := liveGroup(mine, *writers, false); o2.err == nil && o2.what != "" {
 					again++
 				}
 			}
 			if again == 0 {
-				outs[g].err = fmt.Errorf("a difference between the live leader and the replay of its log did not show again in 3 re-executions: %s", outs[g].what)
+				outs[g].err = fmt.Errorf("a difference between the live leader and the replay of its log did not show again in %d re-executions: %s", tries, outs[g].what)
 				return
 			}
-			outs[g].what += fmt.Sprintf(" (a difference showed again in %d of 3 re-executions of the same requests)", again)
+			outs[g].what += fmt.Sprintf(" (a difference showed again in %d of %d re-executions of the same requests)", again, tries)
 		}(g)
 	}
 	wg.Wait()
